@@ -15,7 +15,7 @@ ASSUMPTIONS = ["the simulated connection records a Write event at the instant Wr
 def scenario(rng, k, big):
     s = []
     n = 0
-    fam = rng.below(6)
+    fam = rng.below(7)
     if fam == 0:
         # strictly sequential notifications and calls-with-cancel: program order must be wire order
         for _ in range(2 + rng.below(5)):
@@ -87,6 +87,25 @@ def scenario(rng, k, big):
             for i in range(n, 0, -1):
                 s.append(scn.cancel(i))
         nt = 1
+    elif fam == 6:
+        # a strictly sequential sender against a writer that is stuck inside Write: sends whose context ends while they
+        # wait cannot have been handed over, so they are abandoned (each returns before the next begins) and must never
+        # reach the wire, nor their notifier run; the live ones reach it in program order
+        s += ["stallw/on", scn.notify(1000 + k % 7, nowait=True), "waitinwrite"]
+        live, dead = [], []
+        for _ in range(2 + rng.below(4)):
+            n += 1
+            if rng.chance(2, 3):
+                if rng.chance(2, 3):
+                    s.append(scn.notify(n, pad=rng.below(12), timeout=rng.choice([3, 8])))      # returns with its deadline
+                else:
+                    s.append(scn.call(n, pad=rng.below(12), timeout=rng.choice([3, 8]), nowait=True)); s.append("await/c%d" % n)
+                dead.append(n)
+            else:
+                s.append(scn.notify(n, pad=rng.below(12), nowait=True)); live.append(n)
+                s.append("sleep/1")
+        s += ["stallw/off"] + ["await/n%d" % i for i in live] + ["settle", "sleep/2", "settle"]
+        return scn.line("scn", "s%d" % k, s, extra="nt=1 family=sequential-against-stuck-writer neverwritten=%s" % ",".join(str(d) for d in dead))
     else:
         # cancel racing the hand-off: cancel immediately after starting, no stall
         for _ in range(2 + rng.below(4)):
